@@ -693,7 +693,9 @@ func (m *Model) Pull(name string, max int, now time.Time, resp []*pubsubpb.Recei
 						dp = x
 					}
 				}
-				dpSettled := dp != nil && (dp.State == Acked || dp.State == DLd || m.expiry(dp, now) == 1)
+				// (expired includes "within the clock margin of its expiry": the
+				// implementation's own comparison decides there)
+				dpSettled := dp != nil && (dp.State == Acked || dp.State == DLd || m.expiry(dp, now) >= 0)
 				sig["revived_predecessor"] = by != nil && by.Seek && dp != by && dpSettled
 				viols = append(viols, Viol{Prop: c.prop, Rule: "must-not/" + c.reason, Sig: sig, Detail: fmt.Sprintf("Pull(%s) at +%v returned message #%d (key %q) while earlier message #%d with the same key is still outstanding (attempts %d, state %s)", name, now.Sub(epoch), d.Msg.Idx, d.Msg.Spec.Key, by.Msg.Idx, by.N, by.State)})
 			} else {
